@@ -1,0 +1,13 @@
+//go:build verif
+
+// Machine-checked contracts for package l4socks (comment-only; read by /verif/gvc).
+
+package l4socks
+
+//@ func (m *Socks4Matcher) Match(cx *layer4.Connection) (matched bool, err error)
+//@ requires wfm(cx)
+//@ safety C04
+
+//@ func (m *Socks5Matcher) Match(cx *layer4.Connection) (matched bool, err error)
+//@ requires wfm(cx)
+//@ safety C04
